@@ -88,3 +88,179 @@ Proof.
   cbn [snd] in Ho. specialize (IH (opt_step e o x)).
   destruct (opt_step_shrinks e o Ho x) as [E|E]; [rewrite E in *; lia|lia].
 Qed.
+
+(* ------------------------------------------------------------------ provenance of the emitted image *)
+From OxiVerif Require Import Model.Evaluate Model.Reductions Model.Filters Proofs.ReductionInv.
+
+Lemma all_res_In {A} (l : list (res A)) outs : all_res l = Ok outs ->
+  forall x, In x outs -> In (Ok x) l.
+Proof.
+  revert outs; induction l as [|r t IH]; intros outs H x Hx; cbn [all_res] in H.
+  - injection H as <-. destruct Hx.
+  - destruct r as [a|?|?]; cbn [bind] in H; try discriminate.
+    destruct (all_res t) as [rest|?|?] eqn:E; cbn [bind] in H; try discriminate.
+    injection H as <-. destruct Hx as [<-|Hx]; [left; reflexivity|right; eapply IH; eauto].
+Qed.
+
+Lemma run_trial_image e ev d a fr nth img f out :
+  run_trial e ev d a fr nth img f = Ok out -> c_image (to_cand out) = img.
+Proof.
+  unfold run_trial. intros H. destruct (dl e (STrial ev nth (filter_code f))).
+  - injection H as <-. reflexivity.
+  - destruct (filter_image _ img f a); cbn [bind] in H; try discriminate. injection H as <-. reflexivity.
+Qed.
+
+Lemma in_number_from {A} (l : list A) : forall n k x, In (k, x) (number_from n l) -> In x l.
+Proof. induction l as [|a t IH]; intros n k x H; cbn in H; [destruct H|]. destruct H as [E|H]; [injection E as _ <-; left; reflexivity|right; eauto]. Qed.
+
+Lemma evaluator_trials_images e ev fs d a fr images outs :
+  evaluator_trials e ev fs d a fr images = Ok outs ->
+  forall out, In out outs -> In (c_image (to_cand out)) images.
+Proof.
+  unfold evaluator_trials. intros H out Hin.
+  pose proof (all_res_In _ _ H out Hin) as Hl. apply in_flat_map in Hl.
+  destruct Hl as [[n img] [Hni Hm]]. apply in_map_iff in Hm. destruct Hm as [f [Hf _]].
+  cbn [fst snd] in Hf. rewrite (run_trial_image _ _ _ _ _ _ _ _ _ Hf). eapply in_number_from; eauto.
+Qed.
+
+Lemma evaluator_best_from outs init c : evaluator_best outs init = Some c -> exists out, In out outs /\ c = to_cand out.
+Proof.
+  unfold evaluator_best. intros H. destruct (best_of init (map to_trial outs)); [|discriminate].
+  destruct (find _ outs) as [out|] eqn:E; [|discriminate]. injection H as <-.
+  apply find_some in E. exists out. split; [apply E|reflexivity].
+Qed.
+
+(* perform_trials returns a candidate whose image is the image it was given, or the earlier result *)
+Lemma perform_trials_image e o img max_size eval_result efs ed c :
+  perform_trials e o img max_size eval_result efs ed = Ok (Some c) ->
+  c_image c = img \/ (exists p, eval_result = Some p /\ c_image c = c_image p).
+Proof.
+  unfold perform_trials. intros H.
+  destruct (fast_evaluation o && _) eqn:Efast.
+  - match type of H with bind ?X _ = _ => destruct X as [er|er1|er2] eqn:Eer end; cbn [bind] in H; try discriminate.
+    assert (Her : forall p, er = Some p -> c_image p = img \/ (exists q, eval_result = Some q /\ c_image p = c_image q)).
+    { intros p ->.
+      destruct (match eval_result with Some _ => filters_difference (filter o) efs | None => filter o end) eqn:Efs.
+      - injection Eer as Eer. right. eauto.
+      - destruct (evaluator_trials e 1 (r :: l) ed (optimize_alpha o) (deflater_eqb (deflate o) ed) [img]) as [outs|?|?] eqn:Eo;
+          cbn [bind] in Eer; try discriminate.
+        destruct (evaluator_best outs _) as [r0|] eqn:Eb.
+        + destruct (evaluator_best_from _ _ _ Eb) as [out [Hin ->]].
+          pose proof (evaluator_trials_images _ _ _ _ _ _ _ _ Eo out Hin) as Himg. destruct Himg as [Himg|[]].
+          injection Eer as Eer.
+          match type of Eer with (if ?b then _ else _) = _ => destruct b end.
+          * injection Eer as <-. left. symmetry. exact Himg.
+          * right. eauto.
+        + injection Eer as Eer. right. eauto. }
+    destruct er as [r|]; [|discriminate].
+    destruct (c_compressed r).
+    + injection H as <-. apply Her. reflexivity.
+    + destruct (deflate_capped e (deflate o) (c_cdata r) max_size); injection H as <-; cbn [c_image]; apply Her; reflexivity.
+  - match type of H with bind ?X _ = _ => destruct X as [outs|oe1|oe2] eqn:Eo end; cbn [bind] in H; try discriminate.
+    injection H as H.
+    destruct (evaluator_best outs max_size) as [new|] eqn:Eb.
+    + destruct (evaluator_best_from _ _ _ Eb) as [out [Hin ->]].
+      pose proof (evaluator_trials_images _ _ _ _ _ _ _ _ Eo out Hin) as Himg. destruct Himg as [Himg|[]].
+      destruct eval_result as [prev|].
+      * match type of H with (if ?b then _ else _) = _ => destruct b end; injection H as <-.
+        -- right. eauto.
+        -- left. symmetry. exact Himg.
+      * injection H as <-. left. symmetry. exact Himg.
+    + destruct eval_result as [prev|]; [|discriminate].
+      destruct (c_compressed prev); [|discriminate]. injection H as <-. right. eauto.
+Qed.
+
+(* the image emitted by optimize_raw is the baseline of perform_reductions or one of the images it
+   handed to the evaluator *)
+Theorem optimize_raw_image e o img max_size c baseline evs :
+  perform_reductions e o img = Ok (baseline, evs) ->
+  optimize_raw e o img max_size = Ok (Some c) ->
+  c_image c = baseline \/ In (c_image c) (submitted evs).
+Proof.
+  intros Hpr H. unfold optimize_raw in H. rewrite Hpr in H. cbn [bind] in H.
+  match type of H with bind ?X _ = _ => destruct X as [outs|oe1|oe2] eqn:Eo end; cbn [bind] in H; try discriminate.
+  set (eval_result := evaluator_best outs None) in *.
+  assert (Hev : forall p, eval_result = Some p -> In (c_image p) (submitted evs)).
+  { intros p Hp. subst eval_result. destruct (evaluator_best_from _ _ _ Hp) as [out [Hin ->]].
+    eapply evaluator_trials_images; eauto. }
+  set (new_image := match eval_result with Some r => c_image r | None => baseline end) in *.
+  assert (Hnew : new_image = baseline \/ In new_image (submitted evs)).
+  { subst new_image. destruct eval_result as [r|]; [right; apply Hev; reflexivity|left; reflexivity]. }
+  match type of H with bind ?X _ = _ => destruct X as [result|re1|re2] eqn:Er end; cbn [bind] in H; try discriminate.
+  destruct result as [r|]; [|discriminate].
+  match type of H with (if ?b then _ else _) = _ => destruct b end; [|discriminate]. injection H as <-.
+  match type of Er with (if ?b then _ else _) = _ => destruct b end.
+  - destruct (perform_trials_image _ _ _ _ _ _ _ _ Er) as [E|[p [Hp E]]].
+    + rewrite E. exact Hnew.
+    + right. rewrite E. apply Hev. exact Hp.
+  - injection Er as Er. right. apply Hev. exact Er.
+Qed.
+
+Lemma submitted_ok (Q : image -> Prop) evs : Forall (ev_ok Q) evs -> forall i, In i (submitted evs) -> Q i.
+Proof.
+  induction 1 as [|ev t Hev Ht IH]; intros i Hi; cbn [submitted] in Hi; [destruct Hi|].
+  destruct ev as [s p|img d]; [apply IH; exact Hi|]. destruct Hi as [<-|Hi]; [exact Hev|apply IH; exact Hi].
+Qed.
+
+(* ------------------------------------------------------------------ C08 at the level of optimize_raw *)
+From OxiVerif Require Import Proofs.EffectProofs Model.Color Model.BitDepth Model.Palette Model.Interlace.
+
+Lemma optimize_raw_runs_reductions e o img max_size r :
+  optimize_raw e o img max_size = Ok r -> exists b evs, perform_reductions e o img = Ok (b, evs).
+Proof.
+  unfold optimize_raw. intros H. destruct (perform_reductions e o img) as [[b evs]|?|?]; cbn [bind] in H; try discriminate.
+  eauto.
+Qed.
+
+(* a header predicate that holds for all candidates holds for what optimize_raw emits *)
+Lemma emitted_satisfies (Q : image -> Prop) e o img max_size c :
+  (forall b evs, perform_reductions e o img = Ok (b, evs) -> all_candidates Q b evs) ->
+  optimize_raw e o img max_size = Ok (Some c) -> Q (c_image c).
+Proof.
+  intros Hall H. destruct (optimize_raw_runs_reductions _ _ _ _ _ H) as (b & evs & Hpr).
+  destruct (Hall b evs Hpr) as [Hb Hevs].
+  destruct (optimize_raw_image _ _ _ _ _ _ _ Hpr H) as [E|Hin]; [rewrite E; exact Hb|].
+  eapply submitted_ok; eauto.
+Qed.
+
+Lemma rgba8_eqb_refl c : rgba8_eqb c c = true.
+Proof. destruct c as [[[r g] b] a]. cbn. rewrite !Z.eqb_refl. reflexivity. Qed.
+Lemma list_eqb_refl {A} (eqb : A -> A -> bool) (Hr : forall x, eqb x x = true) l : list_eqb eqb l l = true.
+Proof. induction l; cbn; auto. rewrite Hr, IHl. reflexivity. Qed.
+Lemma color_type_eqb_refl c : color_type_eqb c c = true.
+Proof.
+  destruct c as [[k|]|[[[r g] b]|]|p| |]; cbn; rewrite ?Z.eqb_refl; auto.
+  apply list_eqb_refl. apply rgba8_eqb_refl.
+Qed.
+
+(* all transformation switches off, interlacing kept, recompression off: nothing is produced, so the
+   caller keeps the decoded input (same IDAT stream, same header) *)
+Theorem nothing_enabled_nothing_done e o img max_size :
+  bit_depth_reduction o = false -> color_type_reduction o = false -> palette_reduction o = false ->
+  grayscale_reduction o = false -> interlace o = None -> idat_recoding o = false ->
+  optimize_raw e o img max_size = Ok None.
+Proof.
+  intros Hbd Hct Hpal Hg Hil Hre.
+  unfold optimize_raw, perform_reductions, s_interlace. rewrite Hil. cbn [bind].
+  unfold reduction_steps. cbn [run_steps].
+  unfold s_clean_alpha, s_16_to_8, s_rgb_gray, s_expand, s_baseline, s_palette, s_alpha, s_to_channels,
+    s_to_indexed, s_sorts, s_depth, s_final.
+  rewrite Hbd, Hct, Hpal, Hg. rewrite !andb_false_r. cbn [andb].
+  unfold guard at 2 3 4 5 6 7 8 9.
+  destruct (guard e (optimize_alpha o) SCleanAlpha _) as [go st1] eqn:G.
+  assert (Hst1 : hdr (r_png st1) = hdr img /\ r_added st1 = false /\ submitted (rev (r_events st1)) = []).
+  { unfold guard in G. destruct (optimize_alpha o); injection G as <- <-; cbn; auto. }
+  destruct Hst1 as (Hh & Ha & Hs).
+  set (st2 := if go then match cleaned_alpha_channel (r_png st1) with Some x => set_png st1 x true | None => st1 end else st1).
+  assert (Hst2 : hdr (r_png st2) = hdr img /\ r_added st2 = false /\ r_events st2 = r_events st1).
+  { subst st2. destruct go; [|auto]. destruct (cleaned_alpha_channel (r_png st1)) as [x|] eqn:E; [|auto].
+    cbn. rewrite (eff_clean _ _ E). auto. }
+  destruct Hst2 as (Hh2 & Ha2 & He2).
+  cbn [bind guard].
+  cbn [set_baseline r_added r_baseline r_events r_png].
+  rewrite Ha2. cbn [bind r_baseline r_events set_baseline].
+  rewrite He2, Hs. cbn [number_from flat_map all_res evaluator_trials bind].
+  unfold evaluator_trials. cbn [number_from flat_map all_res bind evaluator_best map best_of best_of_go].
+  rewrite Hh2. rewrite color_type_eqb_refl, Z.eqb_refl, eqb_reflx. cbn [negb orb].
+  rewrite Hre. cbn [orb bind]. reflexivity.
+Qed.
